@@ -426,7 +426,12 @@ void World::finish(int exit_status) {
 	res.extra = ex;
 }
 
+// coverage builds only (CJETSIM_COV=1 in bin/simbuild.py): the profile is merged into one file per binary when a run ends
+extern "C" int __llvm_profile_write_file(void) __attribute__((weak));
+extern "C" void __llvm_profile_set_filename(const char *) __attribute__((weak));
+
 void World::bail() {
+	if (__llvm_profile_write_file) { if (__llvm_profile_set_filename) __llvm_profile_set_filename("/tmp/cjetcov/%8m.profraw"); __llvm_profile_write_file(); }
 	std::string s = res.to_json().dump();
 	s += "\n";
 	size_t off = 0;
